@@ -3,11 +3,14 @@ package props
 import (
 	"bytes"
 	"fmt"
-	"io"
 	"os"
 	"path/filepath"
+	"strings"
 
+	blocks "github.com/ipfs/go-block-format"
 	"github.com/ipfs/go-cid"
+	"github.com/ipld/go-car/v2/blockstore"
+	"github.com/ipld/go-car/v2/index"
 	"github.com/ipld/go-car/v2/storage"
 	"github.com/ipld/go-car/v2/storage/deferred"
 
@@ -18,15 +21,23 @@ import (
 )
 
 type C16Case struct {
-	Blocks []string    `json:"blocks,omitempty"` // default a, L300, b
-	Front  string      `json:"front"`            // bs, st, st-stream, def-stream
+	Blocks []string    `json:"blocks,omitempty"` // default a, L300, b: one Put call each
+	Batch  []string    `json:"batch,omitempty"`  // bs only: after Blocks, ONE PutMany call with these
+	Front  string      `json:"front"`            // bs, st, st-stream, def-stream, def-path, st-memdev, st-memrw, bs-ro, st-ro
 	Opts   drv.Opts    `json:"opts"`
 	Faults []drv.Fault `json:"faults"`
-	Retry  bool        `json:"retry,omitempty"`
+	Retry  bool        `json:"retry,omitempty"`  // a failed Put/PutMany is retried once
+	Cont   string      `json:"cont,omitempty"`   // after a failed finalize: "" stop, "refin" finalize again, "putfin" Put k then finalize again
+	Fro    bool        `json:"fro,omitempty"`    // bs: FinalizeReadOnly (+ Close at the end) instead of Finalize
+	Pre    []string    `json:"pre,omitempty"`    // bs, st: blocks of a fault-free first generation; the faulted session RESUMES that file
+	PreFin bool        `json:"prefin,omitempty"` // the first generation was finalized
 	Class  string      `json:"class,omitempty"`
 }
 
 var c16Blocks = []string{"a", "L300", "b"}
+
+// c16Extra is the block put by the "putfin" continuation (in no session's block list).
+const c16Extra = "k"
 
 // faultyWriter injects faults into a plain stream.
 type faultyWriter struct {
@@ -53,100 +64,241 @@ func (w *faultyWriter) Write(p []byte) (int, error) {
 	return w.buf.Write(p)
 }
 
-type c16Writer interface {
-	Put(b kit.Blk) error
-	Has(b kit.Blk) (bool, error, bool) // third: supported
-	Finalize() error
+// c16W is the uniform view of the front-ends.
+type c16W struct {
+	bs       *blockstore.ReadWrite
+	st       *storage.StorageCar // storage front-ends (file, memory, stream)
+	dw       *deferred.DeferredCarWriter
+	readable bool // st has a reader (Get works)
 }
 
-type c16Stream struct {
-	w  storage.WritableCar
-	dw *deferred.DeferredCarWriter
-}
-
-func (s *c16Stream) Put(b kit.Blk) error {
-	if s.dw != nil {
-		return s.dw.Put(drv.Ctx, b.Cid.KeyString(), b.Data)
+func (w *c16W) Put(b kit.Blk) error {
+	switch {
+	case w.bs != nil:
+		return w.bs.Put(drv.Ctx, b.Block())
+	case w.dw != nil:
+		return w.dw.Put(drv.Ctx, b.Cid.KeyString(), b.Data)
 	}
-	return s.w.Put(drv.Ctx, b.Cid.KeyString(), b.Data)
+	return w.st.Put(drv.Ctx, b.Cid.KeyString(), b.Data)
 }
-func (s *c16Stream) Has(b kit.Blk) (bool, error, bool) {
-	var h bool
-	var err error
-	if s.dw != nil {
-		h, err = s.dw.Has(drv.Ctx, b.Cid.KeyString())
-	} else {
-		h, err = s.w.(*storage.StorageCar).Has(drv.Ctx, b.Cid.KeyString())
+
+func (w *c16W) PutMany(bs []kit.Blk) error {
+	l := make([]blocks.Block, len(bs))
+	for i, b := range bs {
+		l[i] = b.Block()
 	}
-	return h, err, true
+	return w.bs.PutMany(drv.Ctx, l)
 }
-func (s *c16Stream) Finalize() error {
-	if s.dw != nil {
-		return s.dw.Close()
+
+func (w *c16W) Has(b kit.Blk) (bool, error) {
+	switch {
+	case w.bs != nil:
+		return w.bs.Has(drv.Ctx, b.Cid)
+	case w.dw != nil:
+		return w.dw.Has(drv.Ctx, b.Cid.KeyString())
 	}
-	return s.w.Finalize()
+	return w.st.Has(drv.Ctx, b.Cid.KeyString())
 }
 
-type c16File struct{ s *c06Store }
-
-func (s c16File) Put(b kit.Blk) error { return s.s.Put(b) }
-func (s c16File) Has(b kit.Blk) (bool, error, bool) {
-	h, err := s.s.Has(b.Cid)
-	return h, err, true
+// Get: third result false = the front-end cannot read.
+func (w *c16W) Get(b kit.Blk) ([]byte, error, bool) {
+	switch {
+	case w.bs != nil:
+		bl, err := w.bs.Get(drv.Ctx, b.Cid)
+		if err != nil {
+			return nil, err, true
+		}
+		return bl.RawData(), nil, true
+	case w.st != nil && w.readable:
+		d, err := w.st.Get(drv.Ctx, b.Cid.KeyString())
+		return d, err, true
+	}
+	return nil, nil, false
 }
-func (s c16File) Finalize() error { return s.s.Finalize() }
 
-// c16Run executes the fixed session under the given faults. It returns the write lengths
-// seen (for enumeration) and reports violations.
-func c16Run(x *kit.Ctx, cs C16Case, check bool) (lens []int, callOfWrite []string) {
+func (w *c16W) GetSize(b kit.Blk) (int, error, bool) {
+	if w.bs == nil {
+		return 0, nil, false
+	}
+	n, err := w.bs.GetSize(drv.Ctx, b.Cid)
+	return n, err, true
+}
+
+func (w *c16W) Keys() ([]cid.Cid, error, bool) {
+	if w.bs == nil {
+		return nil, nil, false
+	}
+	ch, err := w.bs.AllKeysChan(drv.Ctx)
+	if err != nil {
+		return nil, err, true
+	}
+	var out []cid.Cid
+	for c := range ch {
+		out = append(out, c)
+	}
+	return out, nil, true
+}
+
+// IndexHits counts the offsets the live index reports for the block's CID.
+func (w *c16W) IndexHits(b kit.Blk) (int, bool) {
+	var idx index.Index
+	switch {
+	case w.bs != nil:
+		idx = w.bs.Index()
+	case w.st != nil:
+		idx = w.st.Index()
+	default:
+		return 0, false
+	}
+	n := 0
+	_ = idx.GetAll(b.Cid, func(uint64) bool { n++; return true })
+	return n, true
+}
+
+func (w *c16W) Finalize() error {
+	switch {
+	case w.bs != nil:
+		return w.bs.Finalize()
+	case w.dw != nil:
+		return w.dw.Close()
+	}
+	return w.st.Finalize()
+}
+
+type c16Result struct {
+	lens     []int    // lengths of the faultable writes, in order
+	calls    []string // API call kind that issued each of them
+	fired    int      // number of the case's faults that were reached
+	contRan  bool     // the Cont continuation was executed
+	openFail bool
+}
+
+// c16Run executes the session under the given faults and applies the oracle (check = false:
+// only learn the write sequence).
+func c16Run(x *kit.Ctx, cs C16Case, check bool) (res c16Result) {
+	drv.InstallC16Hook()
 	roots := []cid.Cid{kit.B("a").Cid}
-	var w c16Writer
-	var fw *faultyWriter
-	var tr *drv.Trace
-	var f *os.File
+	fail := func(sig, f string, a ...any) {
+		if check {
+			x.Fail("c16:"+cs.Front+":"+cs.Class+":"+sig, f, a...)
+		}
+	}
 	path := filepath.Join(x.Dir, "c16.car")
 	os.Remove(path)
 	defer os.Remove(path)
+
+	var w *c16W
 	var openErr error
-	hookedBefore := func() int {
-		if tr != nil {
-			return tr.Hooked()
-		}
-		return fw.calls
-	}
+	var hooked func() int
+	var lensNow func() []int
+	var final func() []byte
+	var okBlocks []kit.Blk
+
 	switch cs.Front {
 	case "bs", "st":
-		var err error
-		f, err = os.OpenFile(path, os.O_RDWR|os.O_CREATE|os.O_TRUNC, 0o644)
+		if len(cs.Pre) > 0 {
+			// fault-free first generation
+			pf, err := os.OpenFile(path, os.O_RDWR|os.O_CREATE|os.O_TRUNC, 0o644)
+			if err != nil {
+				panic(err)
+			}
+			s, err := c06Open(cs.Front, pf, roots, cs.Opts, false)
+			if err != nil {
+				panic(err)
+			}
+			for _, b := range kit.Bs(cs.Pre) {
+				if err := s.Put(b); err != nil {
+					panic(err)
+				}
+				okBlocks = append(okBlocks, b)
+			}
+			if cs.PreFin {
+				if err := s.Finalize(); err != nil {
+					panic(err)
+				}
+			}
+			s.Discard()
+			pf.Close()
+		}
+		flags := os.O_RDWR | os.O_CREATE
+		if len(cs.Pre) == 0 {
+			flags |= os.O_TRUNC
+		}
+		f, err := os.OpenFile(path, flags, 0o644)
 		if err != nil {
 			panic(err)
 		}
 		defer f.Close()
-		tr = drv.NewTrace(f)
+		tr := drv.NewTrace(f)
 		tr.Faults = cs.Faults
 		defer tr.Stop()
-		s, err := c06Open(cs.Front, f, roots, cs.Opts, false)
+		hooked = tr.Hooked
+		lensNow = func() (l []int) {
+			for _, r := range tr.Log {
+				if !r.Synthetic && r.Kind == "write" {
+					l = append(l, len(r.Data))
+				}
+			}
+			return
+		}
+		final = func() []byte { b, _ := os.ReadFile(path); return b }
+		s, err := c06Open(cs.Front, f, roots, cs.Opts, len(cs.Pre) > 0)
 		openErr = err
 		if err == nil {
 			defer s.Discard()
-			w = c16File{s}
+			w = &c16W{bs: s.bs, st: s.st, readable: true}
 		}
 	case "st-stream":
-		fw = &faultyWriter{faults: cs.Faults}
+		fw := &faultyWriter{faults: cs.Faults}
+		hooked = func() int { return fw.calls }
+		lensNow = func() []int { return fw.lens }
+		final = func() []byte { return fw.buf.Bytes() }
 		o := cs.Opts
 		o.V1 = true
 		s, err := storage.NewWritable(fw, roots, o.List()...)
 		openErr = err
 		if err == nil {
-			w = &c16Stream{w: s}
+			w = &c16W{st: s.(*storage.StorageCar)}
 		}
 	case "def-stream":
-		fw = &faultyWriter{faults: cs.Faults}
-		w = &c16Stream{dw: deferred.NewDeferredCarWriterForStream(fw, roots, cs.Opts.List()...)}
+		fw := &faultyWriter{faults: cs.Faults}
+		hooked = func() int { return fw.calls }
+		lensNow = func() []int { return fw.lens }
+		final = func() []byte { return fw.buf.Bytes() }
+		w = &c16W{dw: deferred.NewDeferredCarWriterForStream(fw, roots, cs.Opts.List()...)}
+	case "def-path":
+		pi := drv.NewPathInjector(path, cs.Faults)
+		defer pi.Stop()
+		hooked = pi.Hooked
+		lensNow = pi.Lens
+		final = func() []byte { b, _ := os.ReadFile(path); return b }
+		w = &c16W{dw: deferred.NewDeferredCarWriterForPath(path, roots, cs.Opts.List()...)}
+	case "st-memdev", "st-memrw":
+		md := &drv.MemDev{Faults: cs.Faults}
+		hooked = func() int { return md.Calls }
+		lensNow = func() []int { return md.Lens }
+		final = func() []byte { return md.Buf }
+		if cs.Front == "st-memdev" {
+			s, err := storage.NewWritable(md, roots, cs.Opts.List()...)
+			openErr = err
+			if err == nil {
+				w = &c16W{st: s.(*storage.StorageCar)}
+			}
+		} else {
+			s, err := storage.NewReadableWritable(drv.MemDevRW{MemDev: md}, roots, cs.Opts.List()...)
+			openErr = err
+			if err == nil {
+				w = &c16W{st: s, readable: true}
+			}
+		}
+	default:
+		panic("unknown front " + cs.Front)
 	}
+	v1 := cs.Opts.V1 || cs.Front == "st-stream" || cs.Front == "def-stream"
+
 	mark := func(kind string, before int) {
-		for i := before; i < hookedBefore(); i++ {
-			callOfWrite = append(callOfWrite, kind)
+		for i := before; i < hooked(); i++ {
+			res.calls = append(res.calls, kind)
 		}
 	}
 	faultIn := func(before, after int) bool {
@@ -157,131 +309,322 @@ func c16Run(x *kit.Ctx, cs C16Case, check bool) (lens []int, callOfWrite []strin
 		}
 		return false
 	}
+	defer func() {
+		res.lens = lensNow()
+		for _, ft := range cs.Faults {
+			if ft.At < hooked() {
+				res.fired++
+			}
+		}
+	}()
 	x.Eval(1)
 	mark("open", 0)
-	fail := func(sig, f string, a ...any) {
-		if check {
-			x.Fail("c16:"+cs.Front+":"+cs.Class+":"+sig, f, a...)
-		}
-	}
 	if openErr != nil {
-		if !faultIn(0, hookedBefore()) {
+		if !faultIn(0, hooked()) {
 			fail("open-error", "constructor failed without an injected fault: %v", openErr)
 		}
 		x.Outcome("open-failed")
+		res.openFail = true
 		return
 	}
-	if faultIn(0, hookedBefore()) && cs.Front != "def-stream" {
+	if faultIn(0, hooked()) {
 		fail("fault-swallowed:open", "a write fault during construction was not reported")
 	}
-	lastFaultCall := -1
-	callIdx := 0
-	laterFailed := false
-	var okBlocks []kit.Blk
+
+	faultSeen := false // a fault fired in some call so far
+	failAfter := false // a call that met no fault failed after the last fault
+	var absent []kit.Blk
+	var maybe []kit.Blk // blocks of a failed PutMany that precede the failing one
+	inList := func(l []kit.Blk, b kit.Blk) bool {
+		for _, o := range l {
+			if bytes.Equal(o.Raw, b.Raw) {
+				return true
+			}
+		}
+		return false
+	}
+	sameHash := func(l []kit.Blk, b kit.Blk) bool {
+		for _, o := range l {
+			if bytes.Equal(o.Cid.Hash(), b.Cid.Hash()) {
+				return true
+			}
+		}
+		return false
+	}
+	// the live (insertion) index is keyed by the bare digest: a record of another block with
+	// the same digest (a / ia) answers GetAll
+	sameDigest := func(l []kit.Blk, b kit.Blk) bool {
+		bc, _ := refcar.ParseCID(b.Raw)
+		for _, o := range l {
+			if oc, err := refcar.ParseCID(o.Raw); err == nil && bytes.Equal(oc.Digest, bc.Digest) {
+				return true
+			}
+		}
+		return false
+	}
+	call := func(kind string, fn func() error) (err error, injected bool) {
+		before := hooked()
+		err = fn()
+		after := hooked()
+		mark(kind, before)
+		x.Transition(1)
+		injected = faultIn(before, after)
+		if injected {
+			faultSeen = true
+			failAfter = false
+			if err == nil {
+				fail("fault-swallowed:"+kind, "%s returned nil although one of its writes failed", kind)
+			}
+		} else if err != nil {
+			if faultSeen {
+				failAfter = true
+			} else {
+				fail(kind+"-error", "%s failed without an injected fault: %v", kind, err)
+			}
+		}
+		return
+	}
+	notStoredByRule := func(b kit.Blk) bool { return model.IsIdentity(b.Raw) && !cs.Opts.StoreID }
+
+	// audit looks at the store after a failed call. open = the store has not been finalized
+	// or closed by the caller yet (after a failed Put): every answer must be exact. Otherwise
+	// (after a failed finalize) errors are tolerated, wrong answers are not.
+	audit := func(stage string, open bool) {
+		if !check {
+			return
+		}
+		for _, b := range absent {
+			// identity CIDs are always "present" unless they are stored explicitly (IdStore rule)
+			if notStoredByRule(b) || sameHash(okBlocks, b) || sameHash(maybe, b) {
+				continue
+			}
+			has, herr := w.Has(b)
+			if has {
+				fail("failed-block-reported", "Put(%s) failed but Has reports the block (%s)", b.Name, stage)
+			} else if herr != nil && open {
+				fail("has-error", "after the failed write (%s) Has(%s) fails: %v", stage, b.Name, herr)
+			}
+			if _, gerr, ok := w.Get(b); ok && gerr == nil {
+				fail("failed-block-readable", "Put(%s) failed but Get returns the block (%s)", b.Name, stage)
+			}
+			if !model.IsIdentity(b.Raw) {
+				if _, serr, ok := w.GetSize(b); ok && serr == nil {
+					fail("failed-block-readable", "Put(%s) failed but GetSize returns a size (%s)", b.Name, stage)
+				}
+			}
+			if n, ok := w.IndexHits(b); ok && n > 0 && !sameDigest(okBlocks, b) && !sameDigest(maybe, b) {
+				fail("failed-block-indexed", "Put(%s) failed but the live index has %d record(s) for it (%s)", b.Name, n, stage)
+			}
+		}
+		for _, b := range okBlocks {
+			has, herr := w.Has(b)
+			if herr == nil && !has {
+				fail("acked-block-lost", "Put(%s) succeeded but after the failed write (%s) Has reports false", b.Name, stage)
+			} else if herr != nil && open {
+				fail("has-error", "after the failed write (%s) Has(%s) of an acknowledged block fails: %v", stage, b.Name, herr)
+			}
+			if d, gerr, ok := w.Get(b); ok {
+				if gerr == nil && !bytes.Equal(d, b.Data) {
+					fail("acked-block-corrupt", "Put(%s) succeeded but after the failed write (%s) Get returns %x", b.Name, stage, clip(d))
+				} else if gerr != nil && open {
+					fail("acked-block-unreadable", "Put(%s) succeeded but after the failed write (%s) Get fails: %v", b.Name, stage, gerr)
+				}
+			}
+		}
+		for _, b := range maybe {
+			// written before the failing block of a PutMany: either answer, but a consistent one
+			has, herr := w.Has(b)
+			if herr == nil && has {
+				if d, gerr, ok := w.Get(b); ok && (gerr != nil || !bytes.Equal(d, b.Data)) {
+					fail("batch-prefix-inconsistent", "Has(%s) is true but Get returns %x, %v (%s)", b.Name, clip(d), gerr, stage)
+				}
+			} else if herr == nil && !notStoredByRule(b) {
+				if n, ok := w.IndexHits(b); ok && n > 0 && !sameDigest(okBlocks, b) {
+					fail("batch-prefix-inconsistent", "Has(%s) is false but the live index has %d record(s) (%s)", b.Name, n, stage)
+				}
+			}
+		}
+		if keys, kerr, ok := w.Keys(); ok {
+			if kerr != nil {
+				if open {
+					fail("keys-error", "after the failed write (%s) AllKeysChan fails: %v", stage, kerr)
+				}
+			} else {
+				for _, k := range keys {
+					kb := kit.Blk{Cid: k}
+					switch {
+					case sameHash(okBlocks, kb) || sameHash(maybe, kb):
+					case sameHash(absent, kb):
+						fail("failed-block-listed", "AllKeysChan lists a block whose Put failed: %s (%s)", k, stage)
+					default:
+						fail("phantom-key", "AllKeysChan lists a key that was never put: %s (%s)", k, stage)
+					}
+				}
+				for _, b := range okBlocks {
+					if notStoredByRule(b) {
+						continue
+					}
+					found := false
+					for _, k := range keys {
+						if bytes.Equal(k.Hash(), b.Cid.Hash()) {
+							found = true
+						}
+					}
+					if !found {
+						fail("acked-block-lost", "Put(%s) succeeded but after the failed write (%s) AllKeysChan does not list it", b.Name, stage)
+					}
+				}
+			}
+		}
+	}
+	drop := func(l []kit.Blk, b kit.Blk) []kit.Blk {
+		var o []kit.Blk
+		for _, e := range l {
+			if !bytes.Equal(e.Raw, b.Raw) {
+				o = append(o, e)
+			}
+		}
+		return o
+	}
+
+	attempts := 1
+	if cs.Retry {
+		attempts = 2
+	}
 	blockNames := c16Blocks
 	if len(cs.Blocks) > 0 {
 		blockNames = cs.Blocks
 	}
 	for _, n := range blockNames {
 		b := kit.B(n)
-		attempts := 1
-		if cs.Retry {
-			attempts = 2
-		}
 		stored := false
 		for a := 0; a < attempts && !stored; a++ {
-			before := hookedBefore()
-			err := w.Put(b)
-			after := hookedBefore()
-			mark("put", before)
-			x.Transition(1)
-			injected := faultIn(before, after)
-			if injected {
-				lastFaultCall = callIdx
-				if err == nil {
-					fail("fault-swallowed:put", "Put(%s) returned nil although one of its writes failed", n)
-				}
-			} else if err != nil {
-				if lastFaultCall >= 0 {
-					laterFailed = true
-				} else {
-					fail("put-error", "Put(%s) failed without an injected fault: %v", n, err)
-				}
-			}
-			callIdx++
+			err, _ := call("put", func() error { return w.Put(b) })
 			if err == nil {
 				stored = true
 				okBlocks = append(okBlocks, b)
+				absent = drop(absent, b)
 			} else {
-				// the failed block is not reported as stored (identity CIDs are always "present"
-				// unless they are stored explicitly: IdStore rule)
-				if model.IsIdentity(b.Raw) && !cs.Opts.StoreID {
-					continue
+				if !inList(absent, b) {
+					absent = append(absent, b)
 				}
-				if has, herr, ok := w.Has(b); ok && herr == nil && has {
-					fail("failed-block-reported", "Put(%s) failed (%v) but Has reports the block", n, err)
-				}
+				audit("Put "+n, true)
 			}
 		}
 	}
-	before := hookedBefore()
-	ferr := w.Finalize()
-	after := hookedBefore()
-	mark("finalize", before)
-	x.Transition(1)
-	if faultIn(before, after) {
-		lastFaultCall = callIdx
-		if ferr == nil {
-			fail("fault-swallowed:finalize", "Finalize returned nil although one of its writes failed")
-		}
-	} else if ferr != nil {
-		laterFailed = true
-		if lastFaultCall < 0 {
-			fail("finalize-error", "Finalize failed without an injected fault: %v", ferr)
+	if len(cs.Batch) > 0 {
+		batch := kit.Bs(cs.Batch)
+		stored := false
+		for a := 0; a < attempts && !stored; a++ {
+			before := hooked()
+			err, injected := call("putmany", func() error { return w.PutMany(batch) })
+			if err == nil {
+				stored = true
+				for _, b := range batch {
+					okBlocks = append(okBlocks, b)
+					absent = drop(absent, b)
+					maybe = drop(maybe, b)
+				}
+				continue
+			}
+			// the block that was being written when the fault fired: every section is
+			// three writes (length, CID, data)
+			failing := 0
+			if injected {
+				for _, ft := range cs.Faults {
+					if ft.At >= before && ft.At < hooked() {
+						failing = (ft.At - before) / 3
+						break
+					}
+				}
+			}
+			for i, b := range batch {
+				if i < failing {
+					if !inList(maybe, b) {
+						maybe = append(maybe, b)
+					}
+				} else if !inList(maybe, b) && !inList(absent, b) {
+					absent = append(absent, b)
+				}
+			}
+			audit("PutMany", true)
 		}
 	}
-	if fw != nil {
-		lens = fw.lens
-	} else {
-		for _, r := range tr.Log {
-			if !r.Synthetic && r.Kind == "write" {
-				lens = append(lens, len(r.Data))
+
+	finalize := func() error {
+		if cs.Fro {
+			return w.bs.FinalizeReadOnly()
+		}
+		return w.Finalize()
+	}
+	lastFin, _ := call("finalize", finalize)
+	if lastFin != nil {
+		audit("finalize", false)
+		switch cs.Cont {
+		case "refin":
+			res.contRan = true
+			lastFin, _ = call("finalize", finalize)
+		case "putfin":
+			res.contRan = true
+			b := kit.B(c16Extra)
+			if err, _ := call("put", func() error { return w.Put(b) }); err == nil {
+				okBlocks = append(okBlocks, b)
+			} else {
+				absent = append(absent, b)
+				audit("Put after failed finalize", false)
 			}
+			lastFin, _ = call("finalize", finalize)
+		}
+	}
+	if cs.Fro {
+		// the read-only phase: everything acknowledged is still there; then Close
+		if lastFin == nil && faultSeen && !failAfter {
+			audit("FinalizeReadOnly succeeded", true)
+		}
+		if cerr, _ := call("close", func() error { return w.bs.Close() }); cerr != nil && lastFin == nil {
+			lastFin = cerr
 		}
 	}
 	if !check {
 		return
 	}
-	if laterFailed || ferr != nil {
+	if failAfter || lastFin != nil {
 		x.Outcome("sticky-or-finalize-failed")
-		return // later calls keep failing: nothing is asserted
+		return // later calls keep failing: nothing is asserted about the archive
 	}
-	x.Outcome("carried-on")
+	if faultSeen {
+		x.Outcome("carried-on")
+	} else {
+		x.Outcome("no-fault-reached")
+	}
 	// the caller carried on and every later call succeeded: the archive must be well-formed
 	// and hold exactly the blocks whose Put returned success
-	var final []byte
-	if fw != nil {
-		final = fw.buf.Bytes()
-	} else {
-		final, _ = os.ReadFile(path)
-	}
-	fl, err := refcar.DecodeFile(final, false)
+	fl, err := refcar.DecodeFile(final(), false)
 	if err != nil {
 		fail("malformed-archive", "after a failed write and a successful continuation the finalized archive is not well-formed: %v", err)
 		return
 	}
+	if fl.Version == 2 == v1 {
+		fail("malformed-archive", "finalized archive has version %d", fl.Version)
+	}
+	if len(fl.Payload.Header.Roots) != 1 || !bytes.Equal(fl.Payload.Header.Roots[0], kit.B("a").Raw) {
+		fail("malformed-archive", "finalized archive has roots %x", fl.Payload.Header.Roots)
+	}
 	var want []refcar.Block
 	for _, b := range okBlocks {
-		want = append(want, b.Ref())
+		if !notStoredByRule(b) && !inList(maybe, b) {
+			want = append(want, b.Ref())
+		}
 	}
 	var got []refcar.Block
 	for _, s := range fl.Payload.Sections {
-		got = append(got, refcar.Block{Cid: s.Cid, Data: s.Data})
+		if !inList(maybe, kit.Blk{Raw: s.Cid}) {
+			got = append(got, refcar.Block{Cid: s.Cid, Data: s.Data})
+		}
 	}
 	if d := sameBlocks(got, want, true); d != "" {
 		fail("wrong-blocks", "finalized archive does not hold exactly the successfully put blocks: %s", d)
 	}
-	v1 := cs.Opts.V1 || fw != nil
 	if !v1 {
 		if !fl.HasIndex {
 			fail("malformed-archive", "no index")
@@ -289,48 +632,146 @@ func c16Run(x *kit.Ctx, cs C16Case, check bool) (lens []int, callOfWrite []strin
 			fail("malformed-archive", "index {%s} does not match payload {%s}", g, w2)
 		}
 	}
-	_ = io.EOF
 	return
+}
+
+// c16Pragma: the CARv2 pragma is written straight to the file (WriteAt in the blockstore, Write
+// in storage), not through the seam. Give the constructor a file that is open read-only, so
+// that exactly these writes fail, and swallow the seam writes: the constructor must fail.
+// Control: the same with a writable file must succeed and leave exactly the pragma on disk.
+func c16Pragma(x *kit.Ctx, cs C16Case) {
+	roots := []cid.Cid{kit.B("a").Cid}
+	path := filepath.Join(x.Dir, "c16p.car")
+	front := strings.TrimSuffix(cs.Front, "-ro")
+	for _, ro := range []bool{false, true} {
+		os.Remove(path)
+		f, err := os.OpenFile(path, os.O_RDWR|os.O_CREATE|os.O_TRUNC, 0o644)
+		if err != nil {
+			panic(err)
+		}
+		if ro {
+			f.Close()
+			if f, err = os.Open(path); err != nil {
+				panic(err)
+			}
+		}
+		sink := drv.NewMemSink(f)
+		s, err := c06Open(front, f, roots, cs.Opts, false)
+		x.Eval(1)
+		x.Transition(1)
+		if s != nil {
+			s.Discard()
+		}
+		sink.Stop(f)
+		f.Close()
+		if !ro {
+			b, _ := os.ReadFile(path)
+			if err != nil || !bytes.Equal(b, refcar.Pragma) || sink.Swallowed() == 0 {
+				// the control does not isolate the pragma write: the harness is out of date
+				x.NotExhaustive(fmt.Sprintf("c16 pragma control (%s) no longer isolates the pragma write: err=%v file=%x swallowed=%d", front, err, clip(b), sink.Swallowed()))
+				break
+			}
+			continue
+		}
+		if err == nil {
+			x.Fail("c16:"+cs.Front+":"+cs.Class+":fault-swallowed:open", "the CARv2 pragma write failed (file not writable) but the constructor returned nil")
+		}
+		x.Outcome("open-failed")
+	}
+	os.Remove(path)
 }
 
 func runC16(c any, x *kit.Ctx) {
 	cs := c.(C16Case)
-	c16Run(x, cs, true)
-	x.State(fmt.Sprintf("%+v", cs))
-	x.Nontrivial(fmt.Sprintf("%+v", cs))
+	key := fmt.Sprintf("%+v", cs)
+	x.State(key)
+	if strings.HasSuffix(cs.Front, "-ro") {
+		c16Pragma(x, cs)
+		x.Nontrivial(key)
+		return
+	}
+	res := c16Run(x, cs, true)
+	if res.fired == 0 {
+		// the generator only emits fault positions it saw in the fault-free run
+		x.Fail("c16:harness:fault-not-reached", "the first fault of the case was never reached (%d faultable writes)", len(res.lens))
+		return
+	}
+	if res.fired < len(cs.Faults) {
+		x.Outcome("later-fault-not-reached")
+		return // same execution as the case without the unreached fault
+	}
+	if cs.Cont != "" && !res.contRan {
+		x.Outcome("continuation-not-reached")
+		return // same execution as Cont = ""
+	}
+	x.Nontrivial(key)
+}
+
+type c16Job struct {
+	front  string
+	o      drv.Opts
+	blocks []string
+	batch  []string
+	pre    []string
+	preFin bool
+	fro    bool
+	tag    string // prefix of the class of the job's cases
 }
 
 func genC16(tier string, emit func(any)) {
-	type cfg struct {
-		front string
-		o     drv.Opts
-	}
-	// sessions whose index has several width buckets / hash codes (so that Finalize issues
-	// several bucket writes, any of which may fail)
-	multi := []cfg{{"bs", drv.Opts{Codec: "sorted"}}, {"st", drv.Opts{Codec: "sorted"}}, {"bs", drv.Opts{StoreID: true}}, {"st", drv.Opts{StoreID: true, Codec: "sorted"}}}
+	drv.InstallC16Hook()
+	sorted := drv.Opts{Codec: "sorted"}
+	padded := drv.Opts{DataPad: 3, IndexPad: 2, Codec: "sorted"}
 	multiBlocks := []string{"a", "s", "i", "ia", "t"}
-	cfgs := []cfg{{"bs", drv.Opts{}}, {"bs", drv.Opts{DataPad: 3, IndexPad: 2, Codec: "sorted"}}, {"bs", drv.Opts{V1: true}}, {"st", drv.Opts{}}, {"st", drv.Opts{V1: true}}, {"st-stream", drv.Opts{}}, {"def-stream", drv.Opts{}}}
+	zeroBlocks := []string{"a", "e", "b"}
+	pre := []string{"c", "s"}
+	jobs := []c16Job{
+		{front: "bs"}, {front: "bs", o: padded}, {front: "bs", o: drv.Opts{V1: true}},
+		{front: "st"}, {front: "st", o: drv.Opts{V1: true}},
+		{front: "st-stream"}, {front: "def-stream"},
+		// sessions whose index has several width buckets / hash codes (so that Finalize issues
+		// several bucket writes, any of which may fail)
+		{front: "bs", o: sorted, blocks: multiBlocks}, {front: "st", o: sorted, blocks: multiBlocks},
+		{front: "bs", o: drv.Opts{StoreID: true}, blocks: multiBlocks}, {front: "st", o: drv.Opts{StoreID: true, Codec: "sorted"}, blocks: multiBlocks},
+		// DeferredCarWriter for a path (creates, and after a failed header re-creates, its file)
+		{front: "def-path"}, {front: "def-path", o: drv.Opts{V1: true}}, {front: "def-path", o: padded},
+		{front: "def-path", o: drv.Opts{StoreID: true, Codec: "sorted"}, blocks: multiBlocks},
+		// storage on an in-memory Writer+WriterAt (every write incl. the pragma is faultable)
+		{front: "st-memdev"}, {front: "st-memdev", o: drv.Opts{V1: true}}, {front: "st-memdev", o: padded},
+		{front: "st-memrw"}, {front: "st-memrw", o: drv.Opts{V1: true}},
+		{front: "st-memrw", o: drv.Opts{StoreID: true}, blocks: multiBlocks},
+		// one PutMany call with three blocks
+		{front: "bs", blocks: []string{"c"}, batch: c16Blocks, tag: "batch:"}, {front: "bs", o: drv.Opts{V1: true}, blocks: []string{"c"}, batch: c16Blocks, tag: "batch:"},
+		{front: "bs", o: drv.Opts{StoreID: true}, blocks: []string{"c"}, batch: []string{"a", "i", "b"}, tag: "batch:"},
+		// resumed sessions (finalized / unfinalized CARv2, CARv1)
+		{front: "bs", pre: pre, preFin: true, tag: "resume-fin:"}, {front: "bs", pre: pre, tag: "resume:"}, {front: "bs", o: drv.Opts{V1: true}, pre: pre, tag: "resume:"},
+		{front: "bs", o: padded, pre: pre, preFin: true, tag: "resume-fin:"},
+		{front: "st", pre: pre, preFin: true, tag: "resume-fin:"}, {front: "st", pre: pre, tag: "resume:"}, {front: "st", o: drv.Opts{V1: true}, pre: pre, tag: "resume:"},
+		// FinalizeReadOnly + Close
+		{front: "bs", fro: true, tag: "fro:"}, {front: "bs", o: drv.Opts{V1: true}, fro: true, tag: "fro:"}, {front: "bs", o: drv.Opts{StoreID: true}, blocks: multiBlocks, fro: true, tag: "fro:"},
+		// a block with empty data: its data write has length zero
+		{front: "bs", blocks: zeroBlocks, tag: "zero:"}, {front: "st", blocks: zeroBlocks, tag: "zero:"}, {front: "st-stream", blocks: zeroBlocks, tag: "zero:"},
+		{front: "def-stream", blocks: zeroBlocks, tag: "zero:"}, {front: "def-path", blocks: zeroBlocks, tag: "zero:"}, {front: "st-memdev", blocks: zeroBlocks, tag: "zero:"},
+	}
+	// the pragma writes that bypass the seam
+	emit(C16Case{Front: "bs-ro", Class: "open:pragma:error"})
+	emit(C16Case{Front: "st-ro", Class: "open:pragma:error"})
+	emit(C16Case{Front: "bs-ro", Opts: padded, Class: "open:pragma:error"})
+
 	dir, err := os.MkdirTemp("/dev/shm", "c16gen")
 	if err != nil {
 		panic(err)
 	}
 	defer os.RemoveAll(dir)
-	type job struct {
-		cf     cfg
-		blocks []string
-	}
-	var jobs []job
-	for _, cf := range cfgs {
-		jobs = append(jobs, job{cf, nil})
-	}
-	for _, cf := range multi {
-		jobs = append(jobs, job{cf, multiBlocks})
-	}
 	for _, jb := range jobs {
-		cf := jb.cf
+		base := C16Case{Front: jb.front, Opts: jb.o, Blocks: jb.blocks, Batch: jb.batch, Pre: jb.pre, PreFin: jb.preFin, Fro: jb.fro}
 		// learn the write sequence from a fault-free run
 		x := kit.ScratchCtx(dir)
-		lens, calls := c16Run(x, C16Case{Front: cf.front, Opts: cf.o, Blocks: jb.blocks}, false)
+		res := c16Run(x, base, false)
+		lens, calls := res.lens, res.calls
+		if len(calls) != len(lens) {
+			panic(fmt.Sprintf("c16 gen: %d writes, %d attributed", len(lens), len(calls)))
+		}
 		class := func(k int) string {
 			// ordinal within its call
 			ord := 0
@@ -338,37 +779,58 @@ func genC16(tier string, emit func(any)) {
 				ord++
 			}
 			if calls[k] == "put" {
-				return fmt.Sprintf("put:w%d", ord%3)
+				return fmt.Sprintf("%sput:w%d", jb.tag, ord%3)
 			}
-			return fmt.Sprintf("%s:w%d", calls[k], ord)
+			return fmt.Sprintf("%s%s:w%d", jb.tag, calls[k], ord)
 		}
-		var singles []drv.Fault
+		conts := []string{"", "refin", "putfin"}
+		shape := func(n, l int) string {
+			switch {
+			case n > 0 && n < l:
+				return "short"
+			case n > 0:
+				return "full"
+			}
+			return "error"
+		}
 		for k, l := range lens {
-			for n := 0; n < l; n++ {
+			isPut := calls[k] == "put" || calls[k] == "putmany"
+			for n := 0; n <= l; n++ {
 				if l > 64 && tier != "thorough" && !(n <= 2 || n >= l-2 || n == l/2) {
 					continue
 				}
-				singles = append(singles, drv.Fault{At: k, N: n})
-				kind := "error"
-				if n > 0 {
-					kind = "short"
-				}
 				for _, retry := range []bool{false, true} {
-					emit(C16Case{Front: cf.front, Opts: cf.o, Blocks: jb.blocks, Faults: []drv.Fault{{At: k, N: n}}, Retry: retry, Class: class(k) + ":" + kind})
-				}
-			}
-		}
-		if tier == "thorough" {
-			// two faults: all ordered pairs of write indices with n in {0, 1}
-			for k1 := range lens {
-				for k2 := k1 + 1; k2 < len(lens)+3; k2++ {
-					for _, n1 := range []int{0, 1} {
-						for _, n2 := range []int{0, 1} {
-							if k1 < len(lens) && n1 >= lens[k1] {
-								continue
-							}
-							for _, retry := range []bool{false, true} {
-								emit(C16Case{Front: cf.front, Opts: cf.o, Blocks: jb.blocks, Faults: []drv.Fault{{At: k1, N: n1}, {At: k2, N: n2}}, Retry: retry, Class: "two-faults:" + class(k1)})
+					if retry && !isPut {
+						continue // nothing to retry: identical to retry = false
+					}
+					for _, cont := range conts {
+						if cont != "" && calls[k] == "open" {
+							continue // a failed constructor has no continuation
+						}
+						cs := base
+						cs.Faults = []drv.Fault{{At: k, N: n}}
+						cs.Retry, cs.Cont, cs.Class = retry, cont, class(k)+":"+shape(n, l)
+						emit(cs)
+						// two faults: run the single-fault case to learn which writes are issued
+						// AFTER the first fault (the implementation is deterministic), and put the
+						// second fault on each of them - every pair emitted is reachable
+						if tier != "thorough" && !(n <= 1 || n == l) {
+							continue
+						}
+						r1 := c16Run(kit.ScratchCtx(dir), cs, false)
+						if cont != "" && !r1.contRan {
+							continue // same execution as cont = ""
+						}
+						for k2 := k + 1; k2 < len(r1.lens); k2++ {
+							l2 := r1.lens[k2]
+							for n2 := 0; n2 <= l2; n2++ {
+								if tier != "thorough" && !(n2 <= 1 || n2 == l2) {
+									continue
+								}
+								c2 := cs
+								c2.Faults = []drv.Fault{{At: k, N: n}, {At: k2, N: n2}}
+								c2.Class = "two-faults:" + class(k)
+								emit(c2)
 							}
 						}
 					}
@@ -384,14 +846,31 @@ func init() {
 		Gen:    genC16,
 		Run:    runC16,
 		Decode: kit.DecodeAs[C16Case],
-		Rule: "sessions Open; Put a; Put L300; Put b; Finalize (and Put a, s, i, ia, t with the digest-only codec / StoreIdentityCIDs, so that the index has several buckets) on {blockstore (file + write seam), storage ReadableWritable (file + write seam), storage streaming CARv1, deferred stream}: ONE transient fault injected at EVERY write call, as a plain error and as a short write of every length (quick: {0,1,2,mid,len-2,len-1} for writes > 64 bytes), " +
-			"with continuation {carry on, retry the failed put}; thorough adds all ordered pairs of faults; oracle: error reported, failed block not reported stored, and if every later call succeeds the finalized archive strictly decodes to exactly the successfully put blocks; every case is non-trivial (one fault position)",
+		Rule: "sessions Open; Put a; Put L300; Put b; Finalize (also Put a, s, i, ia, t with the digest-only codec / StoreIdentityCIDs so that the index has several buckets; Put a, e, b so that a data write has length 0) on " +
+			"{blockstore.ReadWrite on a file (write seam), storage.NewReadableWritable on a file (write seam), storage.NewWritable / NewReadableWritable on an in-memory Writer+WriterAt (every write incl. the pragma), storage streaming CARv1, deferred writer for a stream, deferred writer for a PATH (write seam matched by file name) as CARv2, CARv1 and padded}; " +
+			"variants: one PutMany([a, L300, b]) call after Put c (blockstore); sessions that RESUME a fault-free file holding c, s (finalized CARv2, unfinalized CARv2, CARv1; blockstore and storage.OpenReadableWritable); FinalizeReadOnly + Close instead of Finalize (blockstore); the CARv2 pragma write of blockstore/storage on a file (fails because the file is read-only, seam writes swallowed, with a writable control). " +
+			"ONE transient fault at EVERY write call: plain error (n = 0, also on zero-length writes), short write of every length, and full write reported with an error (quick: n in {0,1,2,mid,len-2,len-1,len} for writes > 64 bytes); " +
+			"continuations: {carry on, retry the failed Put/PutMany once} x after a failed finalize {stop, finalize again, Put k then finalize again}; TWO faults: every single-fault case (quick: first fault n in {0,1,len}) is executed by the generator to learn which writes the (deterministic) implementation issues after the first fault - re-created deferred-path file, retried calls, continuations - and the second fault is put on each of them (quick: n in {0,1,len}; thorough: every length 0..len), so every pair is reachable. " +
+			"Oracle: the faulted call returns an error and no call fails before the first fault; after every failed Put/PutMany, on the still open store, each block whose Put failed has Has = (false, nil), no Get/GetSize, no AllKeysChan entry and no live index record, and each acknowledged block has Has = (true, nil), Get = its data, and is listed (after a failed finalize: same but errors tolerated); blocks of a failed PutMany before the failing one may be either but consistently; " +
+			"if every call after the last fault succeeds incl. the last finalize (and Close), the file strictly decodes (refcar) with the right version and roots, holds exactly the acknowledged blocks (incl. the resumed ones) and its index equals the records of its payload. A case is non-trivial when all its faults fired and its continuation ran (a single-fault case whose finalize did not fail has no continuation: outcome continuation-not-reached; a first fault that is not reached is reported as c16:harness:fault-not-reached)",
 		Bound: func(tier string) map[string]any {
+			m := map[string]any{"sessions": 40, "continuations": "2 x 3", "fault shapes": "error, short (every length), full+error, zero-length"}
 			if tier == "thorough" {
-				return map[string]any{"faults": 2, "positions": "every write call x every short length"}
+				m["faults"] = "2 (second fault on every write reachable after the first, every length)"
+				m["positions"] = "every write call x every length 0..len"
+			} else {
+				m["faults"] = "2 (first and second fault n in {0,1,len}; second fault on every write reachable after the first)"
+				m["positions"] = "every write call x every length 0..len (7 lengths for writes > 64 bytes)"
 			}
-			return map[string]any{"faults": 1, "positions": "every write call x every short length (6 lengths for writes > 64 bytes)"}
+			return m
 		},
-		Assumptions: []string{"faults are transient (only the chosen write calls fail)", "if later calls keep failing (sticky error) nothing is asserted, as the property states"},
+		Assumptions: []string{
+			"faults are transient (only the chosen write calls fail)",
+			"if a call that met no fault fails after the last fault (sticky error) nothing is asserted about the archive, as the property states; the store audit after each failed call still applies",
+			"a short write always comes with an error (a writer returning n < len(p) and a nil error breaks the io.Writer contract: out of scope)",
+			"the pragma write of the file-backed front-ends (blockstore WriteAt, storage/deferred-path Write on the *os.File) bypasses the seam: it is faulted only as 'file not writable' (blockstore, storage) and positionally on the in-memory device; not at all for the deferred path writer, which shares storage.NewWritable",
+			"Truncate and Seek issued by Resume are not faultable (no seam); re-opening after a failed resume is C06's domain",
+			"after a failed PutMany the blocks written before the failing one are neither required nor forbidden (PutMany reports one error for the batch)",
+		},
 	})
 }
